@@ -111,9 +111,7 @@ IsF4 == /\ Failing \cap {"C07_Charge", "C07_RequestEscrow"} # {}
         /\ C07_Charge_ModF4(pre, ev, st) /\ C07_RequestEscrow_ModF4(st, gh)
 IsF21 == "C08_Schedule" \in Failing /\ C08_Schedule_ModF21(pre, ev, st, gpre)
 (* a record, so that known-finding entries can match on "why.f4" etc. *)
-IsF29 == /\ Failing \cap {"C07_OwnerTally", "C07_Withdraw"} # {}
-         /\ C07_OwnerTally_ModF29(st, gh) /\ C07_Withdraw_ModF29(pre, ev, st)
-WhyOf == [f4 |-> IsF4, f21 |-> IsF21, f29 |-> IsF29, spec |-> Apply(pre, ev).why]
+WhyOf == [f4 |-> IsF4, f21 |-> IsF21, spec |-> Apply(pre, ev).why]
 
 (* Evaluated by TLC in every state; always TRUE, reports as a side effect *)
 Monitor == Failing = {} \/ PrintT(<<"CLAUSE-FAIL", l - 1, Failing, WhyOf>>)
